@@ -515,6 +515,12 @@ func (b *Buffer) cleanup() {
 			go func() {
 				defer timer.Stop() // just in case, ensure the timer gets stopped
 				defer func() {
+					// lock the buffer first (same order as the cleanup call above, which runs under it), so that the
+					// re-broadcast cannot land between the cleaner recording the broadcast flag and it parking in
+					// cond.Wait, which would lose the wake-up and leave a consumed prefix unreclaimed indefinitely
+					b.mutex.Lock()
+					defer b.mutex.Unlock()
+
 					// lock on the mutex, so that the timer removal and broadcast checking / performing is synced
 					mutex.Lock()
 					defer mutex.Unlock()
